@@ -650,6 +650,73 @@ func manyGlyphsFamily() Family {
 	}
 }
 
+// curve forms -------------------------------------------------------------------
+
+// curveFormsFamily: the three ways the writer encodes a curve (rrcurveto,
+// hvcurveto, vhcurveto) with every combination of fractional parts whose best
+// quotient p/q (q <= 107) is off by almost 1/214 in a known direction, on
+// every free delta.  Errors of the same sign add up unless the writer measures
+// each delta from the position the reader will reconstruct.
+func curveFormsFamily() Family {
+	fr := []float64{0, 0.0040, 0.0046, -0.0040, -0.0046}
+	n := len(fr)
+	nRR, nHV := n*n*n*n*n*n, n*n*n*n
+	return Family{
+		Name: "curve-forms-adversarial-fractions",
+		N:    nRR + 2*nHV,
+		Rule: "glyph A = moveto, curve, lineto, curve, lineto, closepath with the curve in each of the three forms (general, horizontal-start/vertical-end, vertical-start/horizontal-end) and every free delta = integer + f, f from {0, +-0.0040, +-0.0046}: 5^6 general and 2 x 5^4 special curves",
+		Build: func(i int) *type1.Font {
+			form := 0
+			var d []int
+			switch {
+			case i < nRR:
+				d = radix(i, n, n, n, n, n, n)
+			case i < nRR+nHV:
+				form, d = 1, radix(i-nRR, n, n, n, n)
+			default:
+				form, d = 2, radix(i-nRR-nHV, n, n, n, n)
+			}
+			var dl [3][2]float64
+			switch form {
+			case 0:
+				dl = [3][2]float64{{10 + fr[d[0]], 20 + fr[d[1]]}, {20 + fr[d[2]], 20 + fr[d[3]]}, {20 + fr[d[4]], 10 + fr[d[5]]}}
+			case 1:
+				dl = [3][2]float64{{10 + fr[d[0]], 0}, {20 + fr[d[1]], 20 + fr[d[2]]}, {0, 10 + fr[d[3]]}}
+			default:
+				dl = [3][2]float64{{0, 10 + fr[d[0]]}, {20 + fr[d[1]], 20 + fr[d[2]]}, {10 + fr[d[3]], 0}}
+			}
+			f := Base()
+			g := f.Glyphs["A"]
+			g.Cmds = nil
+			g.HStem, g.VStem = nil, nil
+			x, y := 100.0, 50.0
+			g.MoveTo(x, y)
+			for rep := 0; rep < 2; rep++ {
+				var p [6]float64
+				if form == 1 {
+					// keep the special shape exact: y1 == y0, x3 == x2
+					p[0], p[1] = x+dl[0][0], y
+					p[2], p[3] = p[0]+dl[1][0], p[1]+dl[1][1]
+					p[4], p[5] = p[2], p[3]+dl[2][1]
+				} else if form == 2 {
+					p[0], p[1] = x, y+dl[0][1]
+					p[2], p[3] = p[0]+dl[1][0], p[1]+dl[1][1]
+					p[4], p[5] = p[2]+dl[2][0], p[3]
+				} else {
+					p[0], p[1] = x+dl[0][0], y+dl[0][1]
+					p[2], p[3] = p[0]+dl[1][0], p[1]+dl[1][1]
+					p[4], p[5] = p[2]+dl[2][0], p[3]+dl[2][1]
+				}
+				g.CurveTo(p[0], p[1], p[2], p[3], p[4], p[5])
+				x, y = p[4]+7+fr[d[0]], p[5]-3+fr[d[1]]
+				g.LineTo(x, y)
+			}
+			g.ClosePath()
+			return f
+		},
+	}
+}
+
 // Families returns the font families of a tier for a domain.
 func Families(tier string, dom Domain) []Family {
 	nOut := NumOutlines
@@ -678,6 +745,7 @@ func Families(tier string, dom Domain) []Family {
 		infoNumberFamily(),
 		dateFamily(),
 		manyGlyphsFamily(),
+		curveFormsFamily(),
 	}
 	if tier == "thorough" {
 		fams[3] = pathLengthFamily(120)
